@@ -1,8 +1,8 @@
-(* C02 - Each generated successor carries the descriptor of its move (model-level part).
-   That the successor *position* is the one the rules give is decided by the correspondence with
-   Spec.apply on chains of generated successors; the descriptor facts below hold for every parent,
-   whatever fields it inherited from earlier moves. *)
-From Walleye Require Import Model.Successor Model.Fen Spec.Abs Proofs.MoveGenProofs Proofs.GenerateAbs Gen.ZobristTable.
+(* C02 - Each generated successor is the position the rules give for its move, and carries its descriptor.
+   Proved for every table, both modes and every well-formed parent; the well-formedness is an invariant of the
+   generator (Preservation.v), so the statement holds along every chain of generated successors; the descriptor
+   facts further below hold for every parent, whatever fields it inherited from earlier moves. *)
+From Walleye Require Import Model.Successor Model.Fen Spec.Abs Proofs.MoveGenProofs Proofs.GenerateAbs Proofs.LegalMoves Proofs.Preservation Gen.ZobristTable.
 Open Scope Z_scope.
 
 (* the main theorem: every successor the generator produces, in both modes -- ordinary move, promotion,
@@ -15,6 +15,15 @@ Theorem C02_successor_is_rules_position : forall zt s m x,
   pos_ok s m -> In x (generate_moves zt s m) ->
   exists mv, desc x = Some mv /\ abs x = apply (abs s) mv.
 Proof. exact generate_moves_abs. Qed.
+
+(* along chains: every successor of every position reached through generated moves from a well-formed root *)
+Theorem C02_holds_along_every_chain : forall zt s y x,
+  pos_ok1 s -> reachable zt s y -> In x (generate_moves zt y AllMoves) ->
+  exists mv, desc x = Some mv /\ abs x = apply (abs y) mv.
+Proof.
+  intros zt s y x PO R Hx. apply (generate_moves_abs zt y AllMoves x); [|exact Hx].
+  exact (proj1 (reachable_pos_ok1 zt s y PO R)).
+Qed.
 
 (* non-vacuity: the start position and "kiwipete" (castling both sides, promotions and en passant nearby) meet pos_ok *)
 Example C02_hypotheses_hold_of_loaded_positions :
@@ -54,6 +63,7 @@ Theorem C02_promotion_descriptor : forall zt s c a b x,
 Proof. exact promote_pawn_desc. Qed.
 
 Print Assumptions C02_successor_is_rules_position.
+Print Assumptions C02_holds_along_every_chain.
 Print Assumptions C02_ordinary_descriptor.
 Print Assumptions C02_castle_descriptor.
 Print Assumptions C02_en_passant_descriptor.
